@@ -130,153 +130,38 @@ func runC01(c *Ctx) {
 		c.Fail("RESORT", "checkAndSortFiles", token.NoPos, "not found")
 	}
 
-	// (3) import flag
-	if gr := p.Func("private/bufpkg/bufimage", "getImageFilesRec"); gr != nil {
-		sf := p.SSAFunc(gr.Obj)
-		ok := false
-		desc := "NewImageFile call not found"
-		for _, call := range callsIn(sf) {
-			fn := staticCalleeObj(call.Call)
-			if fn == nil || fn.Name() != "NewImageFile" {
+	// (3) import flag — decided on SSA and by data flow, not by the names of the bookkeeping variables: the function
+	// that builds image files passes NewImageFile an isImport value that is the negated comma-ok of a lookup of the
+	// path in one of its own map parameters; its outermost caller passes for that parameter a local set whose only
+	// insertions are keyed by Path() of the elements of a parameter (the sorted target files)
+	c01ImportFlag(c)
+
+	// (4) newImage: both indexes are check-then-insert (decided on SSA, whatever the shape of the if/else)
+	if ni := p.Func("private/bufpkg/bufimage", "newImage"); ni != nil {
+		res := ssaCheckThenInsert(p.SSAFunc(ni.Obj))
+		nPath, nCommit := 0, 0
+		for _, r := range res {
+			mt, _ := r.Map.Type().Underlying().(*types.Map)
+			if mt == nil {
+				if pt, ok := r.Map.Type().Underlying().(*types.Pointer); ok {
+					mt, _ = pt.Elem().Underlying().(*types.Map)
+				}
+			}
+			if mt == nil || r.Stores == 0 {
 				continue
 			}
-			// the bool argument (isImport): first bool-typed arg
-			for _, a := range call.Call.Args {
-				if b, isB := a.Type().Underlying().(*types.Basic); !isB || b.Kind() != types.Bool {
-					continue
-				}
-				u, isNot := a.(*ssa.UnOp)
-				if !isNot || u.Op != token.NOT {
-					desc = "isImport is not a negation"
-					break
-				}
-				ex, isEx := u.X.(*ssa.Extract)
-				if !isEx || ex.Index != 1 {
-					desc = "isImport is not the negated comma-ok of a lookup"
-					break
-				}
-				lk, isLk := ex.Tuple.(*ssa.Lookup)
-				if !isLk {
-					break
-				}
-				if prm, isP := lk.X.(*ssa.Parameter); isP && strings.Contains(strings.ToLower(prm.Name()), "import") {
-					ok = true
-					desc = "isImport = !ok of a lookup of the path in parameter " + prm.Name()
-				}
-				break
+			ok := r.ErrOnFound && r.StoreOnAbsent && !r.StoreOnFound
+			if namedName(mt.Elem()) == "ImageFile" {
+				nPath++
+				c.Ob("DUP-VALIDATION", "newImage/duplicate-path", ni.Decl.Pos(), ok, true, "path index: a path already present returns an error (%v); it is inserted only when absent (%v) and never overwritten (%v)", r.ErrOnFound, r.StoreOnAbsent, !r.StoreOnFound)
+			} else if _, isStruct := mt.Elem().Underlying().(*types.Struct); isStruct {
+				nCommit++
+				c.Ob("DUP-VALIDATION", "newImage/one-commit-per-module", ni.Decl.Pos(), ok, true, "module index: a module already seen can return an error (different commit) (%v); a new name is recorded only when absent (%v) and never overwritten (%v)", r.ErrOnFound, r.StoreOnAbsent, !r.StoreOnFound)
 			}
 		}
-		c.Ob("IMPORT-FLAG", "getImageFilesRec/isImport", gr.Decl.Pos(), ok, true, "%s", desc)
-	}
-	if gi := p.Func("private/bufpkg/bufimage", "getImage"); gi != nil {
-		info := gi.Info()
-		// writers of the non-import set: keyed by X.Path() inside a range over the sorted files parameter
-		okW, n := true, 0
-		var setObj types.Object
-		ast.Inspect(gi.Decl.Body, func(x ast.Node) bool {
-			as, ok := x.(*ast.AssignStmt)
-			if !ok || len(as.Lhs) != 1 {
-				return true
-			}
-			ix, ok := as.Lhs[0].(*ast.IndexExpr)
-			if !ok {
-				return true
-			}
-			o := identObj(info, ix.X)
-			if o == nil || !strings.Contains(strings.ToLower(o.Name()), "import") {
-				return true
-			}
-			setObj = o
-			n++
-			call, isCall := ix.Index.(*ast.CallExpr)
-			if !isCall {
-				okW = false
-				return true
-			}
-			sel, isSel := call.Fun.(*ast.SelectorExpr)
-			if !isSel || sel.Sel.Name != "Path" {
-				okW = false
-				return true
-			}
-			inRange := false
-			for cur := p.Parent(as); cur != nil && cur != gi.Decl; cur = p.Parent(cur) {
-				if rs, ok := cur.(*ast.RangeStmt); ok && identObj(info, rs.Value) == identObj(info, sel.X) {
-					if prm := identObj(info, rs.X); prm != nil && namedName(prm.Type()) == "Files" {
-						inRange = true
-					}
-				}
-			}
-			if !inRange {
-				okW = false
-			}
-			return true
-		})
-		c.Ob("IMPORT-FLAG", "getImage/non-import-set", gi.Decl.Pos(), okW && n == 1 && setObj != nil, true, "the non-import set is filled once, with Path() of each sorted target file: %v", okW && n == 1)
-	}
-
-	// (4) newImage
-	if ni := p.Func("private/bufpkg/bufimage", "newImage"); ni != nil {
-		info := ni.Info()
-		// pattern: if _, ok := M[k]; ok { return nil, err }  followed by M[k] = v, for the path index
-		pathDup, commitDup := false, false
-		ast.Inspect(ni.Decl.Body, func(x ast.Node) bool {
-			ifs, ok := x.(*ast.IfStmt)
-			if !ok {
-				return true
-			}
-			// form A: init lookup + ok cond + error return
-			if as, ok := ifs.Init.(*ast.AssignStmt); ok && len(as.Rhs) == 1 {
-				if ix, ok := as.Rhs[0].(*ast.IndexExpr); ok && identObj(info, ifs.Cond) == identObj(info, as.Lhs[1]) {
-					for _, st := range ifs.Body.List {
-						if r, ok := st.(*ast.ReturnStmt); ok && classifyReturn(info, r) == retNonNil {
-							// the insert M[k] = … follows
-							blk, _ := p.Parent(ifs).(*ast.BlockStmt)
-							if blk != nil {
-								for _, s2 := range blk.List {
-									if a2, ok := s2.(*ast.AssignStmt); ok && s2.Pos() > ifs.End() && len(a2.Lhs) == 1 {
-										if ix2, ok := a2.Lhs[0].(*ast.IndexExpr); ok && exprString(ix2.X) == exprString(ix.X) && exprString(ix2.Index) == exprString(ix.Index) {
-											pathDup = true
-										}
-									}
-								}
-							}
-						}
-					}
-				}
-			}
-			// form B: `if ok { if existing.commitID != file.CommitID() { return err } } else { M[k] = … }`
-			if identObjName(info, ifs.Cond) == "ok" && ifs.Else != nil {
-				errInner := false
-				ast.Inspect(ifs.Body, func(y ast.Node) bool {
-					if in, ok := y.(*ast.IfStmt); ok {
-						if be, ok := in.Cond.(*ast.BinaryExpr); ok && be.Op == token.NEQ && strings.Contains(strings.ToLower(exprString(be)), "commit") {
-							for _, st := range in.Body.List {
-								if r, ok := st.(*ast.ReturnStmt); ok && classifyReturn(info, r) == retNonNil {
-									errInner = true
-								}
-							}
-						}
-					}
-					return true
-				})
-				insertElse := false
-				if eb, ok := ifs.Else.(*ast.BlockStmt); ok {
-					for _, st := range eb.List {
-						if a2, ok := st.(*ast.AssignStmt); ok && len(a2.Lhs) == 1 {
-							if _, ok := a2.Lhs[0].(*ast.IndexExpr); ok {
-								insertElse = true
-							}
-						}
-					}
-				}
-				if errInner && insertElse {
-					commitDup = true
-				}
-			}
-			return true
-		})
-		c.Ob("DUP-VALIDATION", "newImage/duplicate-path", ni.Decl.Pos(), pathDup, true, "a path already in the index returns an error; otherwise it is inserted (check-then-insert): %v", pathDup)
-		c.Ob("DUP-VALIDATION", "newImage/one-commit-per-module", ni.Decl.Pos(), commitDup, true, "a second commit for an already seen module name returns an error; a new name is recorded: %v", commitDup)
+		if nPath != 1 || nCommit != 1 {
+			c.Fail("DUP-VALIDATION", "newImage/indexes", ni.Decl.Pos(), "expected one path index and one module index with comma-ok lookups, found %d and %d", nPath, nCommit)
+		}
 	} else {
 		c.Fail("DUP-VALIDATION", "newImage", token.NoPos, "not found")
 	}
@@ -648,7 +533,6 @@ func c01TargetTable(c *Ctx) {
 		c.Fail(rule, "anchor", token.NoPos, "getIsTargetFileForPathUncached not found")
 		return
 	}
-	info := fr.Info()
 	// early return false under !module.IsTarget() as first statement
 	first := false
 	if len(fr.Decl.Body.List) > 0 {
@@ -661,111 +545,229 @@ func c01TargetTable(c *Ctx) {
 		}
 	}
 	c.Ob(rule, "getIsTargetFileForPathUncached/non-target-module-first", fr.Decl.Pos(), first, true, "files of non-target modules are never targets: the !IsTarget() test is the first statement and returns false: %v", first)
-	var sw *ast.SwitchStmt
-	for _, st := range fr.Decl.Body.List {
-		if s, ok := st.(*ast.SwitchStmt); ok && s.Tag == nil {
-			sw = s
-		}
+	// the decision over the path/exclude-path maps, wherever it lives (in this function or in a helper of the
+	// package it calls), in whatever control-flow shape: located as the statement list that holds the
+	// MapHasEqualOrContainingPath calls, evaluated from its first statement that consults the maps
+	var stmts []ast.Stmt
+	var dinfo *types.Info
+	var dpos token.Pos
+	isMapPred := func(info *types.Info, n ast.Node) bool {
+		hit := false
+		ast.Inspect(n, func(m ast.Node) bool {
+			if call, ok := m.(*ast.CallExpr); ok {
+				if fn := Callee(info, call); fn != nil && fn.Name() == "MapHasEqualOrContainingPath" {
+					hit = true
+				}
+			}
+			return true
+		})
+		return hit
 	}
-	if sw == nil {
-		c.Fail(rule, "getIsTargetFileForPathUncached/switch", fr.Decl.Pos(), "no tagless switch over the path/exclude maps found: cannot extract the truth table")
+	deepInspect(p, fr, 2, func(n ast.Node, info *types.Info) bool {
+		var list []ast.Stmt
+		switch b := n.(type) {
+		case *ast.BlockStmt:
+			list = b.List
+		default:
+			return true
+		}
+		// the list must contain the predicates, and no single element of it may contain all of them unless it is
+		// the decision statement itself (a switch/if): choose the outermost list whose statements hold them
+		cnt := 0
+		for _, st := range list {
+			if isMapPred(info, st) {
+				cnt++
+			}
+		}
+		if cnt == 0 || stmts != nil {
+			return true
+		}
+		// skip leading statements that do not consult the maps at all
+		first := -1
+		for i, st := range list {
+			if first < 0 && (isMapPred(info, st) || strings.Contains(strings.ToLower(nodeStringAny(p, st)), "pathmap")) {
+				first = i
+			}
+		}
+		if first < 0 {
+			return true
+		}
+		// the enclosing statements before `first` must not be part of the decision (they return on their own)
+		stmts, dinfo, dpos = list[first:], info, list[first].Pos()
+		return true
+	})
+	if stmts == nil {
+		c.Fail(rule, "getIsTargetFileForPathUncached/decision", fr.Decl.Pos(), "no statement list using MapHasEqualOrContainingPath found in the function or its helpers: cannot extract the truth table")
 		return
 	}
-	// predicate evaluation
 	type env struct{ tEmpty, eEmpty, inT, inE bool }
 	isExclude := func(e ast.Expr) (bool, bool) {
-		s := exprString(e)
-		if !strings.Contains(s, "PathMap") && !strings.Contains(s, "pathMap") {
+		s := strings.ToLower(exprString(e))
+		if !strings.Contains(s, "pathmap") {
 			return false, false
 		}
-		return strings.Contains(strings.ToLower(s), "exclude"), true
+		return strings.Contains(s, "exclude"), true
 	}
-	var eval func(e ast.Expr, v env) tri
-	eval = func(e ast.Expr, v env) tri {
-		e = ast.Unparen(e)
-		switch x := e.(type) {
-		case *ast.Ident:
-			if x.Name == "true" {
-				return triTrue
-			}
-			if x.Name == "false" {
-				return triFalse
-			}
-		case *ast.UnaryExpr:
-			if x.Op == token.NOT {
-				return triNot(eval(x.X, v))
-			}
-		case *ast.BinaryExpr:
-			switch x.Op {
-			case token.LAND:
-				return triAnd(eval(x.X, v), eval(x.Y, v))
-			case token.LOR:
-				return triOr(eval(x.X, v), eval(x.Y, v))
-			case token.EQL, token.NEQ:
-				// len(m) == 0 / != 0
-				if call, ok := ast.Unparen(x.X).(*ast.CallExpr); ok && len(call.Args) == 1 && constIntIs(info, x.Y, 0) {
+	bad := ""
+	n := 0
+	for i := 0; i < 16 && bad == ""; i++ {
+		v := env{i&1 != 0, i&2 != 0, i&4 != 0, i&8 != 0}
+		if (v.tEmpty && v.inT) || (v.eEmpty && v.inE) {
+			continue
+		}
+		n++
+		atom := func(e ast.Expr) (tri, bool) {
+			switch x := ast.Unparen(e).(type) {
+			case *ast.BinaryExpr:
+				if call, ok := ast.Unparen(x.X).(*ast.CallExpr); ok && len(call.Args) == 1 && constIntIs(dinfo, x.Y, 0) {
 					if id, ok := call.Fun.(*ast.Ident); ok && id.Name == "len" {
 						if ex, known := isExclude(call.Args[0]); known {
 							empty := v.tEmpty
 							if ex {
 								empty = v.eEmpty
 							}
-							if x.Op == token.NEQ {
-								empty = !empty
+							switch x.Op {
+							case token.EQL:
+								return triOf(empty), true
+							case token.NEQ, token.GTR:
+								return triOf(!empty), true
 							}
-							return triOf(empty)
 						}
 					}
 				}
-			}
-		case *ast.CallExpr:
-			if fn := Callee(info, x); fn != nil && fn.Name() == "MapHasEqualOrContainingPath" && len(x.Args) == 3 {
-				if ex, known := isExclude(x.Args[0]); known {
-					if ex {
-						return triOf(v.inE && !v.eEmpty)
+			case *ast.CallExpr:
+				if fn := Callee(dinfo, x); fn != nil && fn.Name() == "MapHasEqualOrContainingPath" && len(x.Args) == 3 {
+					if ex, known := isExclude(x.Args[0]); known {
+						if ex {
+							return triOf(v.inE && !v.eEmpty), true
+						}
+						return triOf(v.inT && !v.tEmpty), true
 					}
-					return triOf(v.inT && !v.tEmpty)
 				}
 			}
+			return triUnknown, false
 		}
-		return triUnknown
-	}
-	bad := ""
-	for i := 0; i < 16; i++ {
-		v := env{i&1 != 0, i&2 != 0, i&4 != 0, i&8 != 0}
-		// membership in an empty map is impossible: skip inconsistent assignments
-		if (v.tEmpty && v.inT) || (v.eEmpty && v.inE) {
-			continue
+		e := &bfEnv{info: dinfo, atom: atom, lookup: func(ast.Expr) (tri, bool) { return triUnknown, false }, store: func(ast.Expr) (string, bool) { return "", false }, locals: map[types.Object]tri{}}
+		var out bfOutcome
+		e.run(stmts, &out)
+		if out.Undecided != "" || !out.Returned {
+			bad = fmt.Sprintf("undecided for %+v: %s", v, out.Undecided)
+			break
 		}
 		want := (v.tEmpty || v.inT) && !(!v.eEmpty && v.inE)
-		got := triUnknown
-		for _, cl := range sw.Body.List {
-			cc := cl.(*ast.CaseClause)
-			taken := triTrue
-			if cc.List != nil {
-				taken = eval(cc.List[0], v)
-			}
-			if taken == triUnknown {
-				got = triUnknown
-				break
-			}
-			if taken == triTrue {
-				for _, st := range cc.Body {
-					if r, ok := st.(*ast.ReturnStmt); ok && len(r.Results) == 2 {
-						got = eval(r.Results[0], v)
-					}
-				}
-				break
-			}
-		}
-		if got == triUnknown {
-			bad = fmt.Sprintf("undecided for %+v (unrecognised predicate)", v)
-			break
-		}
-		if (got == triTrue) != want {
-			bad = fmt.Sprintf("for targetsEmpty=%v excludesEmpty=%v inTargets=%v inExcludes=%v the code yields %v, the documented decision is %v", v.tEmpty, v.eEmpty, v.inT, v.inE, got == triTrue, want)
-			break
+		if (out.Value == triTrue) != want {
+			bad = fmt.Sprintf("for targetsEmpty=%v excludesEmpty=%v inTargets=%v inExcludes=%v the code yields %v, the documented decision is %v", v.tEmpty, v.eEmpty, v.inT, v.inE, out.Value == triTrue, want)
 		}
 	}
-	c.Ob(rule, "getIsTargetFileForPathUncached/truth-table", sw.Pos(), bad == "", true, "truth table over the 9 consistent assignments of (targets empty, excludes empty, in targets, in excludes) equals (Tempty ∨ inT) ∧ ¬(¬Eempty ∧ inE) %s", bad)
+	c.Ob(rule, "getIsTargetFileForPathUncached/truth-table", dpos, bad == "", true, "truth table over the %d consistent assignments of (targets empty, excludes empty, in targets, in excludes) equals (Tempty ∨ inT) ∧ ¬(¬Eempty ∧ inE) %s", n, bad)
+}
+
+func nodeStringAny(p *Prog, n ast.Node) string {
+	var sb strings.Builder
+	ast.Inspect(n, func(m ast.Node) bool {
+		if id, ok := m.(*ast.Ident); ok {
+			sb.WriteString(id.Name)
+			sb.WriteString(" ")
+		}
+		return true
+	})
+	return sb.String()
+}
+
+
+func c01ImportFlag(c *Ctx) {
+	p := c.P
+	pk := p.Pkg("private/bufpkg/bufimage")
+	var rec *ssa.Function
+	recIdx := -1
+	desc := "no function of bufimage passes NewImageFile an isImport derived from a set parameter"
+	for _, sf := range p.SSAFuncsOf([]*packages.Package{pk}) {
+		for _, f := range allSSAFuncs(sf) {
+			for _, call := range callsIn(f) {
+				fn := staticCalleeObj(call.Call)
+				if fn == nil || fn.Name() != "NewImageFile" || fn.Pkg() != pk.Types {
+					continue
+				}
+				for _, a := range call.Call.Args {
+					if b, isB := a.Type().Underlying().(*types.Basic); !isB || b.Kind() != types.Bool {
+						continue
+					}
+					cond, pos := condPolarity(a)
+					ex, isEx := cond.(*ssa.Extract)
+					if !isEx || ex.Index != 1 || pos {
+						continue
+					}
+					lk, isLk := ex.Tuple.(*ssa.Lookup)
+					if !isLk {
+						continue
+					}
+					if prm, isP := lk.X.(*ssa.Parameter); isP {
+						for i, q := range f.Params {
+							if q == prm {
+								rec, recIdx = f, i
+								desc = "isImport = !ok of a lookup of the path in parameter #" + fmt.Sprint(i) + " of " + f.Name()
+							}
+						}
+					}
+					break
+				}
+			}
+		}
+	}
+	c.Ob("IMPORT-FLAG", "image-file-builder/isImport", token.NoPos, rec != nil, true, "%s", desc)
+	if rec == nil {
+		return
+	}
+	// the non-recursive callers
+	okW, n := true, 0
+	why := ""
+	for _, cs := range p.callersIndex()[rec] {
+		caller := cs.Instr.Parent()
+		if caller == rec || recIdx >= len(cs.Call.Args) {
+			continue
+		}
+		set := cs.Call.Args[recIdx]
+		if u, ok := set.(*ssa.UnOp); ok && u.Op == token.MUL {
+			set = u.X
+		}
+		for _, b := range caller.Blocks {
+			for _, ins := range b.Instrs {
+				mu, ok := ins.(*ssa.MapUpdate)
+				if !ok {
+					continue
+				}
+				m := mu.Map
+				if u, ok := m.(*ssa.UnOp); ok && u.Op == token.MUL {
+					m = u.X
+				}
+				if m != set && mu.Map != cs.Call.Args[recIdx] {
+					continue
+				}
+				n++
+				// key = x.Path() with x an element of a parameter of the caller
+				kc, isCall := mu.Key.(*ssa.Call)
+				if !isCall || !(kc.Call.IsInvoke() && kc.Call.Method.Name() == "Path" || staticCalleeObj(&kc.Call) != nil && staticCalleeObj(&kc.Call).Name() == "Path") {
+					okW = false
+					why = "a key that is not a Path() call"
+					continue
+				}
+				fromParam := false
+				var recv ssa.Value = kc.Call.Value
+				if !kc.Call.IsInvoke() && len(kc.Call.Args) > 0 {
+					recv = kc.Call.Args[0]
+				}
+				sliceBack(recv, func(x ssa.Value) bool {
+					if _, isP := x.(*ssa.Parameter); isP {
+						fromParam = true
+					}
+					return true
+				})
+				if !fromParam {
+					okW = false
+					why = "a key not derived from an element of a parameter"
+				}
+			}
+		}
+	}
+	c.Ob("IMPORT-FLAG", "image-file-builder/non-import-set", token.NoPos, okW && n >= 1, true, "the set handed to the builder is filled (%d insertion(s)) only with Path() of elements of the caller's parameter (the sorted target files): %v %s", n, okW, why)
 }
